@@ -132,6 +132,28 @@ impl<'a> G<'a> {
     }
     fn simple_attribute_operand(&mut self) -> SimpleAttributeOperand {
         let npath = self.r.below(4);
+        if self.r.chance(0.25) {
+            // a path that really resolves, to nodes of every class a browse name can lead to (objects,
+            // variables, methods, nested variables), starting at a real instance or type
+            let (start, path): (NodeId, Vec<&str>) = match self.r.below(10) {
+                0 => (ObjectId::Server.into(), vec!["GetMonitoredItems"]),
+                1 => (ObjectId::Server.into(), vec!["ResendData"]),
+                2 => (ObjectId::Server.into(), vec!["ServerStatus", "CurrentTime"]),
+                3 => (ObjectId::Server.into(), vec!["ServerStatus"]),
+                4 => (ObjectId::Server.into(), vec!["ServerCapabilities"]),
+                5 => (ObjectId::Server.into(), vec!["NamespaceArray"]),
+                6 => (ObjectId::RootFolder.into(), vec!["Objects", "Server"]),
+                7 => (ObjectId::ObjectsFolder.into(), vec!["Server", "GetMonitoredItems"]),
+                8 => (ObjectTypeId::ServerType.into(), vec!["GetMonitoredItems"]),
+                _ => (ObjectTypeId::BaseEventType.into(), vec!["EventId"]),
+            };
+            return SimpleAttributeOperand {
+                type_definition_id: start,
+                browse_path: Some(path.into_iter().map(|n| QualifiedName::new(0, n)).collect()),
+                attribute_id: self.attr(),
+                index_range: self.range(),
+            };
+        }
         SimpleAttributeOperand {
             type_definition_id: if self.r.chance(0.7) { ObjectTypeId::BaseEventType.into() } else { self.node() },
             browse_path: if npath == 3 { None } else { Some((0..npath).map(|_| if self.r.chance(0.6) { QualifiedName::new(0, *self.r.pick(&["EventId", "Message", "Severity", "SourceNode", "Time"])) } else { self.qname() }).collect()) },
@@ -432,6 +454,37 @@ impl<'a> G<'a> {
                 nodes_to_add: Some(
                     (0..n)
                         .map(|_| {
+                            if self.r.chance(0.3) {
+                                // an item that would be accepted, with exactly one field out of the ordinary: checks
+                                // that sit behind all the others are only reached this way
+                                let mut item = AddNodesItem {
+                                    parent_node_id: ExpandedNodeId::from(NodeId::from(if self.r.chance(0.5) { ObjectId::ObjectsFolder.into() } else { NodeId::new(self.ns, "o0") })),
+                                    reference_type_id: if self.r.chance(0.5) { ReferenceTypeId::Organizes.into() } else { ReferenceTypeId::HasComponent.into() },
+                                    requested_new_node_id: ExpandedNodeId::from(NodeId::new(self.ns, 5000 + self.r.below(100_000) as u32)),
+                                    browse_name: QualifiedName::new(0, format!("nv{}", self.r.below(1_000_000))),
+                                    node_class: NodeClass::Object,
+                                    node_attributes: ExtensionObject::from_encodable(
+                                        ObjectId::ObjectAttributes_Encoding_DefaultBinary,
+                                        &ObjectAttributes { specified_attributes: (AttributesMask::DISPLAY_NAME | AttributesMask::EVENT_NOTIFIER).bits(), display_name: LocalizedText::from("nv"), description: LocalizedText::null(), write_mask: 0, user_write_mask: 0, event_notifier: 0 },
+                                    ),
+                                    type_definition: ExpandedNodeId::from(NodeId::from(&(if self.r.chance(0.5) { ObjectTypeId::BaseObjectType } else { ObjectTypeId::FolderType }))),
+                                };
+                                match self.r.below(9) {
+                                    0 => item.requested_new_node_id.node_id = NodeId::new(*self.r.pick(&[2u16, 3, 9, 77, 65535]), self.r.below(10_000) as u32),
+                                    1 => {
+                                        item.requested_new_node_id.node_id = NodeId::new(*self.r.pick(&[3u16, 9, 77, 65535]), self.r.below(10_000) as u32);
+                                        item.requested_new_node_id.namespace_uri = UAString::from(*self.r.pick(&["urn:some:namespace", "urn:sim:swarm", "http://opcfoundation.org/UA/", ""]));
+                                    }
+                                    2 => item.requested_new_node_id.server_index = 1 + self.r.below(3) as u32,
+                                    3 => item.parent_node_id.namespace_uri = UAString::from("urn:sim:swarm"),
+                                    4 => item.browse_name = self.qname(),
+                                    5 => item.type_definition = ExpandedNodeId::from(self.node()),
+                                    6 => item.reference_type_id = self.reftype(),
+                                    7 => item.requested_new_node_id = ExpandedNodeId::null(),
+                                    _ => item.type_definition.namespace_uri = UAString::from("urn:nowhere"),
+                                }
+                                return item;
+                            }
                             let class = *self.r.pick(&[NodeClass::Object, NodeClass::Object, NodeClass::Variable, NodeClass::Method, NodeClass::Unspecified, NodeClass::View]);
                             let parent = self.node();
                             // self references: requested id == parent
@@ -445,7 +498,7 @@ impl<'a> G<'a> {
                                 reference_type_id: self.reftype(),
                                 requested_new_node_id: ExpandedNodeId {
                                     node_id: requested,
-                                    namespace_uri: UAString::null(),
+                                    namespace_uri: if self.r.chance(0.85) { UAString::null() } else { UAString::from(*self.r.pick(&["http://opcfoundation.org/UA/", "urn:sim:swarm", "urn:nowhere", ""])) },
                                     server_index: if self.r.chance(0.95) { 0 } else { 3 },
                                 },
                                 browse_name: self.qname(),
